@@ -1578,3 +1578,25 @@ def reaches_call(F, f, sub, depth, _memo={}):
     return r
 
 
+
+
+def try_lock_sites(F, classes):
+    """(fn, bb, method, class) of non-blocking acquisitions (try_read / try_write / try_lock) of the given lock classes"""
+    out = []
+    for n, f in F.fns.items():
+        for b, t in f.calls():
+            lc = lock_call(t)
+            if lc and lc[0].startswith("try_") and lc[1] in classes:
+                out.append((f, b, lc[0], lc[1]))
+    return out
+
+
+def no_try_locks(ctx, RULE, classes, why):
+    """an operation that must take effect takes its lock with a blocking call: a try_* acquisition that fails skips the
+    operation silently whenever another thread holds the lock"""
+    sites = try_lock_sites(ctx.facts, classes)
+    for f, b, m, c in sites:
+        ctx.bad(RULE, "%s|non-blocking-lock|%s" % (f.name, c),
+                "locks guarding cache state are taken with blocking calls (read / write / lock): `%s` fails while another thread holds the lock and the guarded operation is then skipped - %s" % (m, why), f.where(b))
+    if not sites:
+        ctx.ok(RULE, "no-non-blocking-lock|%s" % "+".join(sorted(classes)), "no try_read / try_write / try_lock on the lock classes %s (%s)" % (sorted(classes), why))
